@@ -93,6 +93,14 @@ impl<'tcx> Runner<'tcx> {
 
     /// abstract value for one parameter of a root
     fn input_for(&mut self, st: &mut State, job: &Job, idx: usize, name: &str, t: Ty<'tcx>, module: &str) -> Val {
+        let v = self.input_for0(st, job, idx, name, t, module);
+        if job.opts.contains_key(&format!("taint.arg{}", idx)) && !matches!(v, Val::Ref(_) | Val::Slice { .. }) {
+            return v.taint_all(T_SK);
+        }
+        v
+    }
+
+    fn input_for0(&mut self, st: &mut State, job: &Job, idx: usize, name: &str, t: Ty<'tcx>, module: &str) -> Val {
         let tcx = self.ip.tcx;
         let key = format!("arg{}", idx);
         if let Some(it) = ity_of(t) {
@@ -114,7 +122,8 @@ impl<'tcx> Runner<'tcx> {
                 if let ty::Slice(et) = inner.kind() {
                     if *et == tcx.types.u8 {
                         let r = job.opts.get(&format!("len.{}", name)).and_then(|s| parse_range(s)).unwrap_or((0, i128::MAX));
-                        return self.byte_slice_input(st, name, r, 0);
+                        let t = if job.opts.contains_key(&format!("taint.arg{}", idx)) { T_SK } else { 0 };
+                        return self.byte_slice_input(st, name, r, t);
                     }
                 }
                 let tn = format!("{:?}", inner);
